@@ -14,7 +14,7 @@ DEFAULT_BUDGET = {"quick": 60.0, "thorough": 1200.0}
 RULE = ("Fault enumeration over stored headers: for every base code object (every code object, nested included, of a seeded program; module, class "
         "body, plain/generator/coroutine/async-generator functions, lambdas, comprehensions, closures, every signature shape) the store alters one "
         "header word before the read: co_flags XOR every single bit 0..30 (exhaustive per base object), seeded 2-6 bit masks mixing known and "
-        "unknown bits, every delta -2..+3 on each argument count, every swap of two counts, seeded flag+count combinations; alterations CPython "
+        "unknown bits, every delta -2..+3 on each argument count, every swap of two counts, deltas on co_nlocals / co_stacksize / co_firstlineno, seeded flag+count combinations; alterations CPython "
         "itself refuses to construct are counted separately. Oracle: from_code raises, or to_code() reproduces every header field exactly. Flag "
         "words alone: every subset of the interpreter's known flags (2^18; exhaustive in thorough, seeded 5% sample in quick) must convert "
         "losslessly; every single unknown bit and seeded known/unknown mixtures must raise or be preserved, judged cold and warm (IntFlag "
